@@ -3,6 +3,7 @@ package main
 import (
 	"fmt"
 	"go/ast"
+	"go/token"
 	"go/parser"
 	"go/types"
 	"sort"
@@ -138,9 +139,19 @@ func (fc *FnCtx) callByContract(fr *Frame, st *State, reach string, con *Contrac
 		t2, _ := fc.evalModifiesD(st, con, deferred, vars, false)
 		fc.havocTargets(st, t2)
 	}
-	for _, cl := range append(append([]*Clause{}, con.Defines...), con.Ensures...) {
+	for i, cl := range append(append([]*Clause{}, con.Defines...), con.Ensures...) {
 		env := fc.specEnv(st, pre, vars, con.Pkg, nil, cl.Text)
-		t := env.evalBool(cl.Expr)
+		var t string
+		if i < len(con.Defines) {
+			// a ghost definition may name locals of the callee's body (e.g. a loop
+			// index): such a clause only has a meaning inside the callee
+			var ok bool
+			if t, ok = env.tryBool(cl.Expr); !ok {
+				continue
+			}
+		} else {
+			t = env.evalBool(cl.Expr)
+		}
 		fc.sc.assume(tImp(reach, t))
 	}
 	// struct invariants hold for the objects a callee returns
@@ -396,6 +407,18 @@ func (env *SpecEnv) lvalue(sp Spec) *Addr {
 	return nil
 }
 
+func (env *SpecEnv) tryBool(sp Spec) (t string, ok bool) {
+	defer func() {
+		if r := recover(); r != nil {
+			if !strings.Contains(fmt.Sprint(r), "unknown identifier") {
+				panic(r)
+			}
+			ok = false
+		}
+	}()
+	return env.evalBool(sp), true
+}
+
 func (env *SpecEnv) tryExpr(e ast.Expr) (v Val, ok bool) {
 	defer func() {
 		if r := recover(); r != nil {
@@ -555,9 +578,38 @@ func (fc *FnCtx) invEnv(fr *Frame, st *State, phiVals map[*ssa.Phi]Val, phis []*
 		if p.Comment != "" {
 			vars[p.Comment] = phiVals[p]
 		}
+		if p.Comment == "rangeindex" {
+			// `for i := range s`: in invariants i denotes the next index to visit
+			// (= number of completed iterations): the hidden counter + 1
+			if name := rangeIndexName(p); name != "" {
+				pv := phiVals[p]
+				vars[name] = intVal(pv.T, sx("+", pv.S, "1"))
+			}
+		}
 	}
 	pkg := fr.fn.Pkg.Pkg
 	return fc.specEnv(st, fc.oldSt, vars, pkg, fr, what)
+}
+
+// rangeIndexName: the source name of the index variable of a range loop whose
+// hidden counter is phi ("" if the index is not named).
+func rangeIndexName(phi *ssa.Phi) string {
+	for _, b := range phi.Parent().Blocks {
+		for _, ins := range b.Instrs {
+			d, ok := ins.(*ssa.DebugRef)
+			if !ok || d.IsAddr {
+				continue
+			}
+			id, ok := d.Expr.(*ast.Ident)
+			if !ok {
+				continue
+			}
+			if bo, ok := d.X.(*ssa.BinOp); ok && bo.Op == token.ADD && bo.X == ssa.Value(phi) {
+				return id.Name
+			}
+		}
+	}
+	return ""
 }
 
 func (fc *FnCtx) paramVars(fr *Frame) map[string]Val {
@@ -1036,6 +1088,18 @@ func (fc *FnCtx) frameCond(st *State, name string, targets []modTarget) string {
 						match = name == b || strings.HasPrefix(name, b)
 					}
 					if match {
+						ex = append(ex, tEq("r", t.addr.Base))
+					}
+				}
+				cond = "(forall ((r Int)) (=> (and (select " + alloc0 + " r) " + tNot(tOr(ex...)) + ") (= (select " + cur + " r) (select " + old + " r))))"
+			case strings.HasPrefix(name, "BX$"):
+				var ex []string
+				for _, t := range targets {
+					if t.addr == nil || t.addr.Kind != AOpaque || t.kind != "field" {
+						continue
+					}
+					b, _ := fc.addrBase(t.addr)
+					if name == b || strings.HasPrefix(name, b) {
 						ex = append(ex, tEq("r", t.addr.Base))
 					}
 				}
